@@ -336,7 +336,8 @@ def recarrier(v, rng, p=0.25, hashable=False):
             d[k2] = recarrier(vv, rng, p)
         if hashable or rng.random() >= p:
             return d
-        return rng.choice((collections.OrderedDict, types.MappingProxyType, CustomMap, lambda x: x))(d)
+        return rng.choice((collections.OrderedDict, types.MappingProxyType, CustomMap, lambda x: x,
+                           lambda x: collections.defaultdict(list, x)))(d)
     if model.is_seq(v):
         items = [recarrier(x, rng, p, hashable) for x in v]
         if hashable:
@@ -373,3 +374,47 @@ def case_values(ty, rng, small=False):
         v = member(ty, rng, small)
         return 'near', recarrier(mutate(v, rng, n=rng.choice((1, 1, 2, 3))), rng)
     return 'arbitrary', recarrier(arbitrary(rng, 3), rng)
+
+
+MAP_CARRIERS = (
+    ('dict', dict), ('OrderedDict', collections.OrderedDict), ('mappingproxy', lambda d: types.MappingProxyType(dict(d))),
+    ('CustomMap', CustomMap), ('defaultdict', lambda d: collections.defaultdict(list, d)),
+)
+
+BAD_TAGS = (['a'], {'x': 1}, None, float('nan'), True, 1, 'unknown-tag', ('a', 'b'), 0, '', b'v1', 2.0)
+
+
+def tagged_layout_mutations(ty, v, rng):
+    """Directed near-members of a tagged-union mapping `v`: wrong layout shapes and ill-kinded tags."""
+    tagname, ext = ty.x['tag'], ty.x['external']
+    if not isinstance(v, collections.abc.Mapping):
+        return [v]
+    d = dict(v)
+    out = []
+    bad = rng.choice(BAD_TAGS)
+    if ext is False:
+        body = {k: x for k, x in d.items() if k != tagname}
+        out.append(body)                                        # tag absent
+        out.append({**body, tagname + '_x': d.get(tagname)})    # tag key renamed
+        out.append({**body, tagname: bad})                      # ill-kinded / unknown tag
+        out.append({tagname: d.get(tagname), **body, 'zz_extra': 1})
+    elif ext is True:
+        (tk, body), = d.items() if len(d) == 1 else [(None, {})]
+        out.append({})                                          # no item
+        out.append({**d, 'second': {}})                         # two items
+        try:
+            hash(bad)
+            out.append({bad: body})                             # unknown / ill-kinded tag
+        except TypeError:
+            out.append({'unknown-tag': body})
+        out.append({tk: [body]})
+    else:
+        t_r, c_r = ext
+        tagv, body = d.get(t_r), d.get(c_r)
+        out.append({t_r + '_x': tagv, c_r: body})               # two keys, tag key missing
+        out.append({t_r: tagv, c_r + '_x': body})               # two keys, content key missing
+        out.append({t_r: tagv})                                 # one key
+        out.append({t_r: tagv, c_r: body, 'third': 0})          # stray third key
+        out.append({t_r: bad, c_r: body})                       # ill-kinded / unknown tag
+        out.append({c_r: tagv, t_r: body})                      # swapped
+    return out
